@@ -73,6 +73,72 @@ example :
             .unmod 2 4]] := by
   simp [expandProgram, expandFrom, expBody, appendLoop]
 
+/-- **C19, partial statement, for EVERY expansion tree** (hoisted instructions anywhere inside calibration
+bodies, any depth): if the top-level unmatched instructions are not hoisted (a `Program` body never holds a
+hoisted instruction), `expand_calibrations_with_source_map` does not crash, the expanded body is the
+surviving leaves in order, and the map is positionally exact in everything but the nested `Unmodified`
+entries: top-level `Unmodified` entries point at their instruction, every `Rewritten` range — at every
+depth, after any number of `remove_target_index` calls — is exactly where the surviving output of its
+instruction lies, relative to the parent range, and an instruction has no entry only if nothing of it
+survives. (Excluded, and false of the code: the nested `Unmodified` entries, see `C19_counterexample`.) -/
+theorem C19_expand_map_exact_partial (h : L → Bool) (nodes : List (Node L C))
+    (hTop : ∀ l, Node.leaf l ∈ nodes → h l = false) :
+    ∃ m, expandProgram h nodes = .ok (flat (fun l => !h l) nodes) m ∧
+      Exact (fun l => !h l) true false 0 0 nodes m := by
+  obtain ⟨es, he, hE⟩ := expandFrom_exact h false nodes 0 [] []
+    (fun l c b _ => appendOK_general h b) hTop
+  exact ⟨es, by simpa [expandProgram] using he, hE⟩
+
+/-- What the partial statement gives in the vocabulary of the specification: every clause of `WF` at
+the top level — entries strictly increasing in source index; `Unmodified t` points at the identical
+instruction; a `Rewritten a..b` entry belongs to an expanded instruction, `a ≤ b ≤ |out|`, and its slice of
+the output is exactly the surviving leaves of that calibration body, whose nested entries are again exact
+in their ranges; every output position is covered by exactly one entry. Only the recursive clause is
+weakened (nested `Exact … false false` instead of nested `WF`). -/
+theorem C19_partial_top_level {alive : L → Bool} {nodes : List (Node L C)} {m : List (Entry C)}
+    (hE : Exact alive true false 0 0 nodes m) :
+    m.Pairwise (fun x y => x.src < y.src) ∧ (∀ e ∈ m, e.src < nodes.length) ∧
+    (∀ s t, Entry.unmod s t ∈ m → ∃ n, nodes[s]? = some n ∧ (flat alive nodes)[t]? = some n.root) ∧
+    (∀ s c a b ns, Entry.rew s c a b ns ∈ m → a ≤ b ∧ b ≤ (flat alive nodes).length ∧
+      ∃ l body, nodes[s]? = some (.exp l c body) ∧ slice (flat alive nodes) a b = flat alive body ∧
+        Exact alive false false 0 0 body ns) ∧
+    (∀ t, t < (flat alive nodes).length → hits m t = 1) := by
+  refine ⟨exact_pairwise hE, fun e he => by have := exact_src_bounds hE e he; omega, ?_, ?_, ?_⟩
+  · intro s t hm
+    obtain ⟨_, _, l, h3, h4⟩ := exact_unmod hE rfl hm
+    exact ⟨.leaf l, by simpa using h3, by simpa [Node.root] using h4⟩
+  · intro s c a b ns hm
+    obtain ⟨_, _, l, body, h3, h4, h5, h6, h7⟩ := exact_rew hE hm
+    exact ⟨by omega, by omega, l, body, by simpa using h3, by simpa using h6, h7⟩
+  · intro t ht
+    rw [exact_hits hE rfl]; simp; omega
+
+/-- **`remove_target_index` keeps every range exact** (the invariant behind the partial statement, and
+the property the `fix:` commit 58e3276 established): removing surviving leaf number `t` from a forest
+whose entries are range-exact leaves them range-exact for the forest without that leaf. -/
+theorem C19_remove_target_index_exact (alive : L → Bool) (kill : L → L) (hk : ∀ l, alive (kill l) = false)
+    {nodes : List (Node L C)} {es : List (Entry C)} (h : Exact alive false false 0 0 nodes es) (t : Nat) :
+    Exact alive false false 0 0 (killAt alive kill nodes t) (retain t es) ∧
+      flat alive (killAt alive kill nodes t) = (flat alive nodes).eraseIdx t := by
+  have := (retain_exact alive kill hk h rfl rfl t).2 (Nat.zero_le _)
+  exact ⟨by simpa using this, flat_killAt alive kill hk nodes t⟩
+
+/-- The driver's classifier for the known finding evaluates `exactB … true false` on the implementation's
+map: it is sound for `Exact`. -/
+theorem C19_exactB_sound [DecidableEq C] (alive : L → Bool) (sH sN : Bool) (nodes : List (Node L C))
+    (es : List (Entry C)) (h : exactB alive sH sN 0 0 nodes es = true) : Exact alive sH sN 0 0 nodes es :=
+  exactB_sound alive sH sN 0 0 nodes es h
+
+/-- non-vacuity of the partial statement: the known-finding witness satisfies it (all ranges exact) -/
+example : Exact (fun l : Nat => !decide (100 ≤ l)) true false 0 0
+    ([.exp 1 10 [.leaf 100, .leaf 2, .exp 3 11 [.leaf 101, .leaf 4]]] : List (Node Nat Nat))
+    [.rew 0 10 0 2 [.unmod 0 0, .unmod 1 1, .rew 2 11 1 2 [.unmod 0 0, .unmod 1 1]]] := by
+  have := C19_expand_map_exact_partial (C := Nat) (fun l : Nat => decide (100 ≤ l))
+    [.exp 1 10 [.leaf 100, .leaf 2, .exp 3 11 [.leaf 101, .leaf 4]]] (by simp)
+  obtain ⟨m, h1, h2⟩ := this
+  simp [expandProgram, expandFrom, expBody, appendLoop, Detail.remove, retain] at h1
+  rw [h1.2]; exact h2
+
 /-! ### `list_sources` / `list_targets` -/
 
 /-- For ANY map: `s` is listed as a source of target `t` iff some target location listed for `s` contains `t`. -/
